@@ -149,8 +149,11 @@ def r2_ref_patterns(text, log):
     # for-loops
     out = []
     last = 0
-    for mm in re.finditer(r'\bfor\s+([^{};]*?)\s+in\b', text):
-        if sn_mask[mm.start()] != CODE or mm.start() < last:
+    for kwm in re.finditer(r'\bfor\b', text):
+        if sn_mask[kwm.start()] != CODE or kwm.start() < last:
+            continue
+        mm = re.compile(r'for\s+([^{};]*?)\s+in\b').match(text, kwm.start())
+        if not mm:
             continue
         pat = mm.group(1)
         if '&' not in pat:
@@ -178,8 +181,11 @@ def r2_ref_patterns(text, log):
     sn_mask = code_mask(text)
     out = []
     last = 0
-    for mm in re.finditer(r'\b(if|while)\s+let\s+Some\(\s*&\s*([a-z_][a-z0-9_]*)\s*\)\s*=', text):
-        if sn_mask[mm.start()] != CODE or mm.start() < last:
+    for kwm in re.finditer(r'\b(if|while)\b', text):
+        if sn_mask[kwm.start()] != CODE or kwm.start() < last:
+            continue
+        mm = re.compile(r'(if|while)\s+let\s+Some\(\s*&\s*([a-z_][a-z0-9_]*)\s*\)\s*=').match(text, kwm.start())
+        if not mm:
             continue
         from .rustscan import next_code
         ob = next_code(text, sn_mask, mm.end(), '{')
